@@ -4,58 +4,121 @@
 (* placement-new in alloc(), explicit destructor call in free(), parked blocks released by the      *)
 (* pool's destructor.  The C heap is the set `heap` of blocks handed out by malloc and not yet      *)
 (* given back; malloc may return any address outside it (also one that was released earlier).       *)
+(* alloc()/free() are modelled both as atomic steps (constructor / destructor does not touch the    *)
+(* pool) and split at the constructor / destructor call (AllocBegin .. AllocEnd, FreeBegin ..        *)
+(* FreeEnd) so that nested alloc()/free() calls made BY the constructor / destructor interleave      *)
+(* exactly where the code allows them: alloc() unlinks the block BEFORE the constructor runs,        *)
+(* free() links it AFTER the destructor returned.  A constructor may throw: the code as it is then   *)
+(* loses the block (neither parked nor given back to the heap; `lost`) - a leak, not a handle        *)
+(* violation, recorded as such.                                                                       *)
 (* Ghost state: the handle-level specification Pool, plus per-address constructor/destructor        *)
 (* counters and flags for accesses to storage that is not the pool's to touch.                      *)
 (* Variant = "intended" is the code; the other variants are deliberate breakages that show that     *)
 (* the invariants are not vacuous (each must be reported by TLC):                                    *)
 (*   "nopop"   alloc() does not unlink the block it hands out                                        *)
 (*   "nodtor"  free() runs the destructor only for blocks it parks                                   *)
+(*   "latepop" alloc() unlinks the reused block only after the constructor returned ("exception      *)
+(*             safe"): an alloc() nested in the constructor is handed the block under construction   *)
 EXTENDS Pool
 CONSTANTS Addrs,        \* addresses malloc can return
           Keeps,        \* retention limits (keep_number_) to explore; 99 = the default constructor (unlimited)
-          Vals, Variant
-VARIABLES keep, parked, nfree, heap, ctor, dtor, wild
-ivars == <<keep, parked, nfree, heap, ctor, dtor, wild>>
+          Vals, Variant,
+          MaxDepth,     \* how deep constructors / destructors may nest calls into the pool (0 = atomic calls only)
+          Throws        \* {FALSE}: constructors never throw; {FALSE, TRUE}: a split constructor may throw at its end
+VARIABLES keep, parked, nfree, heap, ctor, dtor, thrown, lost, istk, wild
+ivars == <<keep, parked, nfree, heap, ctor, dtor, thrown, lost, istk, wild>>
 vars == <<pvars, ivars>>
 Unlimited == 1000000
 Range(s) == {s[i] : i \in DOMAIN s}
+Inc(f, a) == [f EXCEPT ![a] = @ + 1]
 
-Init == /\ PInit /\ keep = 0 /\ parked = <<>> /\ nfree = 0 /\ heap = {}
-        /\ ctor = [a \in Addrs |-> 0] /\ dtor = [a \in Addrs |-> 0] /\ wild = FALSE
+Init == /\ PInit /\ keep = 0 /\ parked = <<>> /\ nfree = 0 /\ heap = {} /\ lost = {} /\ istk = <<>>
+        /\ ctor = [a \in Addrs |-> 0] /\ dtor = [a \in Addrs |-> 0] /\ thrown = [a \in Addrs |-> 0] /\ wild = FALSE
 
 New(k) == /\ PNew /\ keep' = (IF k = 99 THEN Unlimited ELSE k) /\ parked' = <<>> /\ nfree' = 0
-          /\ UNCHANGED <<heap, ctor, dtor, wild>>
-\* alloc(): take the head of the parked list, or malloc; construct in place
+          /\ UNCHANGED <<heap, ctor, dtor, thrown, lost, istk, wild>>
+\* ---- atomic alloc(): take the head of the parked list, or malloc; construct in place ----------------------
 AllocAt(a, v, popped) ==
   /\ parked' = (IF popped /\ Variant # "nopop" THEN Tail(parked) ELSE parked)
   /\ nfree' = (IF popped THEN nfree - 1 ELSE nfree)
   /\ heap' = heap \cup {a}
   /\ wild' = (wild \/ a \notin heap')                    \* placement-new into storage that is not allocated
-  /\ ctor' = [ctor EXCEPT ![a] = @ + 1]
-  /\ UNCHANGED <<keep, dtor>>
+  /\ ctor' = Inc(ctor, a)
+  /\ UNCHANGED <<keep, dtor, thrown, lost, istk>>
   /\ PAlloc(a, v)
 Alloc(v) ==
   /\ exists
   /\ IF parked # <<>> THEN AllocAt(Head(parked), v, TRUE)
      ELSE \E a \in Addrs \ heap : AllocAt(a, v, FALSE)
-\* free(p): destructor, then park the block (if fewer than keep are parked) or give it back to the heap
+\* ---- atomic free(p): destructor, then park the block (if fewer than keep are parked) or give it back to the heap
 Free(a) ==
   /\ exists /\ a \in DOMAIN inUse
   /\ LET park == nfree < keep IN
-     /\ dtor' = (IF Variant = "nodtor" /\ ~park THEN dtor ELSE [dtor EXCEPT ![a] = @ + 1])
+     /\ dtor' = (IF Variant = "nodtor" /\ ~park THEN dtor ELSE Inc(dtor, a))
      /\ wild' = (wild \/ a \notin heap)
      /\ IF park THEN parked' = <<a>> \o parked /\ nfree' = nfree + 1 /\ heap' = heap
         ELSE parked' = parked /\ nfree' = nfree /\ heap' = heap \ {a}
-  /\ UNCHANGED <<keep, ctor>>
+  /\ UNCHANGED <<keep, ctor, thrown, lost, istk>>
   /\ PFree(a)
+\* ---- alloc() up to the point where T's constructor is running ----------------------------------------------
+BeginAt(a, v, reuse) ==
+  /\ parked' = (IF reuse /\ Variant \notin {"nopop", "latepop"} THEN Tail(parked) ELSE parked)
+  /\ nfree' = (IF reuse /\ Variant # "latepop" THEN nfree - 1 ELSE nfree)
+  /\ heap' = heap \cup {a}
+  /\ wild' = (wild \/ a \notin heap')
+  /\ ctor' = Inc(ctor, a)
+  /\ istk' = Append(istk, [reuse |-> reuse, next |-> IF reuse THEN Tail(parked) ELSE <<>>])     \* "latepop" remembers block->next
+  /\ UNCHANGED <<keep, dtor, thrown, lost>>
+  /\ PCBeg(a, v)
+AllocBegin(v) ==
+  /\ exists /\ Len(stk) < MaxDepth
+  /\ IF parked # <<>> THEN BeginAt(Head(parked), v, TRUE)
+     ELSE \E a \in Addrs \ heap : BeginAt(a, v, FALSE)
+\* ---- the constructor returns / throws: rest of alloc() ------------------------------------------------------
+AllocEnd(th) ==
+  /\ stk # <<>> /\ Top.k = "c"
+  /\ LET f == istk[Len(istk)]
+         a == Top.a
+     IN /\ istk' = SubSeq(istk, 1, Len(istk) - 1)
+        /\ thrown' = (IF th THEN Inc(thrown, a) ELSE thrown)
+        /\ IF Variant = "latepop"
+           THEN \* success: free_header_ = next; --free_number_.   throw: the block stays linked / goes back to the heap
+                /\ parked' = (IF f.reuse /\ ~th THEN f.next ELSE parked)
+                /\ nfree' = (IF f.reuse /\ ~th THEN nfree - 1 ELSE nfree)
+                /\ heap' = (IF th /\ ~f.reuse THEN heap \ {a} ELSE heap)
+                /\ lost' = lost
+           ELSE \* the block was unlinked before the constructor ran; when it throws nobody owns the block any more
+                /\ UNCHANGED <<parked, nfree, heap>>
+                /\ lost' = (IF th THEN lost \cup {a} ELSE lost)
+        /\ UNCHANGED <<keep, ctor, dtor, wild>>
+        /\ PCEnd(a, th)
+\* ---- free(p) up to the point where T's destructor is running -----------------------------------------------
+FreeBegin(a) ==
+  /\ exists /\ a \in DOMAIN inUse /\ Len(stk) < MaxDepth
+  /\ dtor' = Inc(dtor, a) /\ wild' = (wild \/ a \notin heap)
+  /\ istk' = Append(istk, [reuse |-> FALSE, next |-> <<>>])
+  /\ UNCHANGED <<keep, parked, nfree, heap, ctor, thrown, lost>>
+  /\ PDBeg(a)
+\* ---- the destructor has returned: park the block or give it back ---------------------------------------------
+FreeEnd ==
+  /\ stk # <<>> /\ Top.k = "d"
+  /\ LET a == Top.a  park == nfree < keep IN
+     IF park THEN parked' = <<a>> \o parked /\ nfree' = nfree + 1 /\ heap' = heap
+     ELSE parked' = parked /\ nfree' = nfree /\ heap' = heap \ {a}
+  /\ istk' = SubSeq(istk, 1, Len(istk) - 1)
+  /\ UNCHANGED <<keep, ctor, dtor, thrown, lost, wild>>
+  /\ PDEnd
 \* ~ObjectPool(): every parked block goes back to the heap
 Del == /\ PDel /\ heap' = heap \ Range(parked) /\ wild' = (wild \/ ~(Range(parked) \subseteq heap))
-       /\ parked' = <<>> /\ nfree' = 0 /\ UNCHANGED <<keep, ctor, dtor>>
+       /\ parked' = <<>> /\ nfree' = 0 /\ UNCHANGED <<keep, ctor, dtor, thrown, lost, istk>>
 
 DoNew == \E k \in Keeps : New(k)
 DoAlloc == \E v \in Vals : Alloc(v)
 DoFree == \E a \in DOMAIN inUse : Free(a)
-Next == DoNew \/ DoAlloc \/ DoFree \/ Del
+DoAllocBegin == \E v \in Vals : AllocBegin(v)
+DoAllocEnd == \E th \in Throws : AllocEnd(th)
+DoFreeBegin == \E a \in DOMAIN inUse : FreeBegin(a)
+Next == DoNew \/ DoAlloc \/ DoFree \/ DoAllocBegin \/ DoAllocEnd \/ DoFreeBegin \/ FreeEnd \/ Del
 Spec == Init /\ [][Next]_vars
 
 \* ---- the property on the implementation state ----------------------------------------------------------
@@ -65,11 +128,13 @@ SumOver(f) == LET RECURSIVE S(_)
               IN S(Addrs)
 SumC == SumOver(ctor)
 SumD == SumOver(dtor)
-CtorDtorBalanced == /\ \A a \in Addrs : ctor[a] - dtor[a] = (IF a \in DOMAIN inUse THEN 1 ELSE 0)
+UnderConstruction == {stk[i].a : i \in {j \in DOMAIN stk : stk[j].k = "c"}}
+CtorDtorBalanced == /\ \A a \in Addrs : ctor[a] - dtor[a] - thrown[a] = (IF a \in (DOMAIN inUse) \cup UnderConstruction THEN 1 ELSE 0)
                     /\ nctor = SumC /\ ndtor = SumD
-\* parked blocks are allocated, pairwise distinct and not in use; nothing else is kept from the heap (no leak, no dangling block)
-ParkedSound == /\ Cardinality(Range(parked)) = Len(parked) /\ Range(parked) \cap DOMAIN inUse = {}
-               /\ heap = Range(parked) \cup DOMAIN inUse
+\* parked blocks are allocated, pairwise distinct and not in use / under construction / under destruction; nothing else is kept
+\* from the heap (no dangling block; the only leak is the block of a constructor that threw)
+ParkedSound == /\ Cardinality(Range(parked)) = Len(parked) /\ Range(parked) \cap Occupied = {}
+               /\ heap = Range(parked) \cup Occupied \cup lost
 ParkedBounded == Len(parked) <= keep /\ nfree = Len(parked)
 NoWildAccess == ~wild
 =============================================================================
